@@ -122,7 +122,7 @@ V(k)   == <<"V", k>>
   }
 
   fair process (c \in Procs)
-    variables pos = 1, cur = [op |-> "none"];
+    variables pos = 1, cur = [op |-> "none"], j = 1;
   { W0: await \A w \in WaitFor[self] : Stopped(w);
     L0: while (pos <= Len(Script[self])) {
           cur := Script[self][pos];
@@ -138,6 +138,26 @@ V(k)   == <<"V", k>>
                 };
             K5: call SyncPath(cur.q, cur.k);
             K6: ret[self] := Append(ret[self], [op |-> "keep", q |-> cur.q, k |-> cur.k, v |-> fb[self]]);
+          } else if (cur.op = "evaln") {
+            \* one evaluation with nested keeps, as _eval_new_ctx does it: look every key up, store the
+            \* missing ones (inner first), then commit all the paths in one go
+            E0: j := 1;
+            E1: while (j <= Len(cur.stores)) {
+                  call HasBlob(cur.stores[j]);
+              E2: if (hb[self]) {
+                    call FetchBlob(cur.stores[j]);
+                  } else {
+                    E3: call StoreBlob(cur.stores[j]);
+                    E3b: fb[self] := V(cur.stores[j]);
+                  };
+              E4: ret[self] := Append(ret[self], [op |-> "keep", q |-> "", k |-> cur.stores[j], v |-> fb[self]]);
+                  j := j + 1;
+                };
+            E5: j := 1;
+            E6: while (j <= Len(cur.syncs)) {
+                  call SyncPath(cur.syncs[j][1], cur.syncs[j][2]);
+              E7: j := j + 1;
+                };
           } else {
             G1: call FetchPath(cur.q);
             G2: call FetchBlob(fp[self]);
@@ -156,10 +176,10 @@ VARIABLES pc, dirs, blob, meta, link, tblob, tmeta, tlink, ret, err, hb, fb,
 LinkOk(q)  == link[q] # "-" /\ blob[link[q]].ex
 Stopped(p) == pc[p] \in {"Done", "Dead"} \/ err[p] # ""
 
-VARIABLES hk, fk, sk, yq, yk, pq, pos, cur
+VARIABLES hk, fk, sk, yq, yk, pq, pos, cur, j
 
 vars == << pc, dirs, blob, meta, link, tblob, tmeta, tlink, ret, err, hb, fb, 
-           fp, stack, hk, fk, sk, yq, yk, pq, pos, cur >>
+           fp, stack, hk, fk, sk, yq, yk, pq, pos, cur, j >>
 
 ProcSet == (Procs)
 
@@ -190,6 +210,7 @@ Init == (* Global variables *)
         (* Process c *)
         /\ pos = [self \in Procs |-> 1]
         /\ cur = [self \in Procs |-> [op |-> "none"]]
+        /\ j = [self \in Procs |-> 1]
         /\ stack = [self \in ProcSet |-> << >>]
         /\ pc = [self \in ProcSet |-> "W0"]
 
@@ -199,7 +220,7 @@ I1(self) == /\ pc[self] = "I1"
                   ELSE /\ pc' = [pc EXCEPT ![self] = "I2"]
             /\ UNCHANGED << dirs, blob, meta, link, tblob, tmeta, tlink, ret, 
                             err, hb, fb, fp, stack, hk, fk, sk, yq, yk, pq, 
-                            pos, cur >>
+                            pos, cur, j >>
 
 I2(self) == /\ pc[self] = "I2"
             /\ IF "internal" \in dirs /\ Algo = "inplace"
@@ -210,7 +231,7 @@ I2(self) == /\ pc[self] = "I2"
                        /\ pc' = [pc EXCEPT ![self] = "I3"]
                        /\ err' = err
             /\ UNCHANGED << blob, meta, link, tblob, tmeta, tlink, ret, hb, fb, 
-                            fp, stack, hk, fk, sk, yq, yk, pq, pos, cur >>
+                            fp, stack, hk, fk, sk, yq, yk, pq, pos, cur, j >>
 
 I3(self) == /\ pc[self] = "I3"
             /\ IF "data" \in dirs
@@ -218,7 +239,7 @@ I3(self) == /\ pc[self] = "I3"
                   ELSE /\ pc' = [pc EXCEPT ![self] = "I4"]
             /\ UNCHANGED << dirs, blob, meta, link, tblob, tmeta, tlink, ret, 
                             err, hb, fb, fp, stack, hk, fk, sk, yq, yk, pq, 
-                            pos, cur >>
+                            pos, cur, j >>
 
 I4(self) == /\ pc[self] = "I4"
             /\ IF "data" \in dirs /\ Algo = "inplace"
@@ -229,7 +250,7 @@ I4(self) == /\ pc[self] = "I4"
                        /\ pc' = [pc EXCEPT ![self] = "I5"]
                        /\ err' = err
             /\ UNCHANGED << blob, meta, link, tblob, tmeta, tlink, ret, hb, fb, 
-                            fp, stack, hk, fk, sk, yq, yk, pq, pos, cur >>
+                            fp, stack, hk, fk, sk, yq, yk, pq, pos, cur, j >>
 
 I5(self) == /\ pc[self] = "I5"
             /\ IF "blobs" \in dirs
@@ -238,7 +259,8 @@ I5(self) == /\ pc[self] = "I5"
                   ELSE /\ pc' = [pc EXCEPT ![self] = "I6"]
                        /\ stack' = stack
             /\ UNCHANGED << dirs, blob, meta, link, tblob, tmeta, tlink, ret, 
-                            err, hb, fb, fp, hk, fk, sk, yq, yk, pq, pos, cur >>
+                            err, hb, fb, fp, hk, fk, sk, yq, yk, pq, pos, cur, 
+                            j >>
 
 I6(self) == /\ pc[self] = "I6"
             /\ IF "blobs" \in dirs /\ Algo = "inplace"
@@ -249,20 +271,21 @@ I6(self) == /\ pc[self] = "I6"
                        /\ pc' = [pc EXCEPT ![self] = "I7"]
                        /\ err' = err
             /\ UNCHANGED << blob, meta, link, tblob, tmeta, tlink, ret, hb, fb, 
-                            fp, stack, hk, fk, sk, yq, yk, pq, pos, cur >>
+                            fp, stack, hk, fk, sk, yq, yk, pq, pos, cur, j >>
 
 I7(self) == /\ pc[self] = "I7"
             /\ pc' = [pc EXCEPT ![self] = Head(stack[self]).pc]
             /\ stack' = [stack EXCEPT ![self] = Tail(stack[self])]
             /\ UNCHANGED << dirs, blob, meta, link, tblob, tmeta, tlink, ret, 
-                            err, hb, fb, fp, hk, fk, sk, yq, yk, pq, pos, cur >>
+                            err, hb, fb, fp, hk, fk, sk, yq, yk, pq, pos, cur, 
+                            j >>
 
 IX(self) == /\ pc[self] = "IX"
             /\ FALSE
             /\ pc' = [pc EXCEPT ![self] = "Error"]
             /\ UNCHANGED << dirs, blob, meta, link, tblob, tmeta, tlink, ret, 
                             err, hb, fb, fp, stack, hk, fk, sk, yq, yk, pq, 
-                            pos, cur >>
+                            pos, cur, j >>
 
 StoreInit(self) == I1(self) \/ I2(self) \/ I3(self) \/ I4(self) \/ I5(self)
                       \/ I6(self) \/ I7(self) \/ IX(self)
@@ -276,7 +299,7 @@ H1(self) == /\ pc[self] = "H1"
                   ELSE /\ pc' = [pc EXCEPT ![self] = "H2"]
                        /\ UNCHANGED << stack, hk >>
             /\ UNCHANGED << dirs, blob, meta, link, tblob, tmeta, tlink, ret, 
-                            err, fb, fp, fk, sk, yq, yk, pq, pos, cur >>
+                            err, fb, fp, fk, sk, yq, yk, pq, pos, cur, j >>
 
 H2(self) == /\ pc[self] = "H2"
             /\ hb' = [hb EXCEPT ![self] = meta[hk[self]].ex]
@@ -284,7 +307,7 @@ H2(self) == /\ pc[self] = "H2"
             /\ hk' = [hk EXCEPT ![self] = Head(stack[self]).hk]
             /\ stack' = [stack EXCEPT ![self] = Tail(stack[self])]
             /\ UNCHANGED << dirs, blob, meta, link, tblob, tmeta, tlink, ret, 
-                            err, fb, fp, fk, sk, yq, yk, pq, pos, cur >>
+                            err, fb, fp, fk, sk, yq, yk, pq, pos, cur, j >>
 
 HasBlob(self) == H1(self) \/ H2(self)
 
@@ -302,7 +325,7 @@ F1(self) == /\ pc[self] = "F1"
                              ELSE /\ pc' = [pc EXCEPT ![self] = "F2"]
                                   /\ UNCHANGED << fb, stack, fk >>
             /\ UNCHANGED << dirs, blob, meta, link, tblob, tmeta, tlink, ret, 
-                            err, hb, fp, hk, sk, yq, yk, pq, pos, cur >>
+                            err, hb, fp, hk, sk, yq, yk, pq, pos, cur, j >>
 
 F2(self) == /\ pc[self] = "F2"
             /\ IF ~meta[fk[self]].ex
@@ -313,7 +336,7 @@ F2(self) == /\ pc[self] = "F2"
                   ELSE /\ pc' = [pc EXCEPT ![self] = "F3"]
                        /\ UNCHANGED << fb, stack, fk >>
             /\ UNCHANGED << dirs, blob, meta, link, tblob, tmeta, tlink, ret, 
-                            err, hb, fp, hk, sk, yq, yk, pq, pos, cur >>
+                            err, hb, fp, hk, sk, yq, yk, pq, pos, cur, j >>
 
 F3(self) == /\ pc[self] = "F3"
             /\ IF meta[fk[self]].w < 2
@@ -323,7 +346,7 @@ F3(self) == /\ pc[self] = "F3"
                        /\ err' = err
             /\ UNCHANGED << dirs, blob, meta, link, tblob, tmeta, tlink, ret, 
                             hb, fb, fp, stack, hk, fk, sk, yq, yk, pq, pos, 
-                            cur >>
+                            cur, j >>
 
 F4(self) == /\ pc[self] = "F4"
             /\ IF ~blob[fk[self]].ex
@@ -341,14 +364,14 @@ F4(self) == /\ pc[self] = "F4"
                                   /\ stack' = [stack EXCEPT ![self] = Tail(stack[self])]
                        /\ err' = err
             /\ UNCHANGED << dirs, blob, meta, link, tblob, tmeta, tlink, ret, 
-                            hb, fp, hk, sk, yq, yk, pq, pos, cur >>
+                            hb, fp, hk, sk, yq, yk, pq, pos, cur, j >>
 
 FX(self) == /\ pc[self] = "FX"
             /\ FALSE
             /\ pc' = [pc EXCEPT ![self] = "Error"]
             /\ UNCHANGED << dirs, blob, meta, link, tblob, tmeta, tlink, ret, 
                             err, hb, fb, fp, stack, hk, fk, sk, yq, yk, pq, 
-                            pos, cur >>
+                            pos, cur, j >>
 
 FetchBlob(self) == F1(self) \/ F2(self) \/ F3(self) \/ F4(self) \/ FX(self)
 
@@ -360,7 +383,7 @@ B0(self) == /\ pc[self] = "B0"
                        /\ err' = err
             /\ UNCHANGED << dirs, blob, meta, link, tblob, tmeta, tlink, ret, 
                             hb, fb, fp, stack, hk, fk, sk, yq, yk, pq, pos, 
-                            cur >>
+                            cur, j >>
 
 B1(self) == /\ pc[self] = "B1"
             /\ IF Algo = "inplace"
@@ -370,7 +393,7 @@ B1(self) == /\ pc[self] = "B1"
                        /\ blob' = blob
             /\ pc' = [pc EXCEPT ![self] = "B2"]
             /\ UNCHANGED << dirs, meta, link, tmeta, tlink, ret, err, hb, fb, 
-                            fp, stack, hk, fk, sk, yq, yk, pq, pos, cur >>
+                            fp, stack, hk, fk, sk, yq, yk, pq, pos, cur, j >>
 
 B2(self) == /\ pc[self] = "B2"
             /\ IF Algo = "inplace"
@@ -380,7 +403,7 @@ B2(self) == /\ pc[self] = "B2"
                        /\ blob' = blob
             /\ pc' = [pc EXCEPT ![self] = "B3"]
             /\ UNCHANGED << dirs, meta, link, tmeta, tlink, ret, err, hb, fb, 
-                            fp, stack, hk, fk, sk, yq, yk, pq, pos, cur >>
+                            fp, stack, hk, fk, sk, yq, yk, pq, pos, cur, j >>
 
 B3(self) == /\ pc[self] = "B3"
             /\ IF Algo = "inplace"
@@ -390,7 +413,7 @@ B3(self) == /\ pc[self] = "B3"
                        /\ blob' = blob
             /\ pc' = [pc EXCEPT ![self] = "B4"]
             /\ UNCHANGED << dirs, meta, link, tmeta, tlink, ret, err, hb, fb, 
-                            fp, stack, hk, fk, sk, yq, yk, pq, pos, cur >>
+                            fp, stack, hk, fk, sk, yq, yk, pq, pos, cur, j >>
 
 B4(self) == /\ pc[self] = "B4"
             /\ IF Algo = "atomic"
@@ -400,7 +423,7 @@ B4(self) == /\ pc[self] = "B4"
                        /\ UNCHANGED << blob, tblob >>
             /\ pc' = [pc EXCEPT ![self] = "B5"]
             /\ UNCHANGED << dirs, meta, link, tmeta, tlink, ret, err, hb, fb, 
-                            fp, stack, hk, fk, sk, yq, yk, pq, pos, cur >>
+                            fp, stack, hk, fk, sk, yq, yk, pq, pos, cur, j >>
 
 B5(self) == /\ pc[self] = "B5"
             /\ IF Algo = "inplace"
@@ -410,7 +433,7 @@ B5(self) == /\ pc[self] = "B5"
                        /\ meta' = meta
             /\ pc' = [pc EXCEPT ![self] = "B6"]
             /\ UNCHANGED << dirs, blob, link, tblob, tlink, ret, err, hb, fb, 
-                            fp, stack, hk, fk, sk, yq, yk, pq, pos, cur >>
+                            fp, stack, hk, fk, sk, yq, yk, pq, pos, cur, j >>
 
 B6(self) == /\ pc[self] = "B6"
             /\ IF Algo = "inplace"
@@ -420,7 +443,7 @@ B6(self) == /\ pc[self] = "B6"
                        /\ meta' = meta
             /\ pc' = [pc EXCEPT ![self] = "B7"]
             /\ UNCHANGED << dirs, blob, link, tblob, tlink, ret, err, hb, fb, 
-                            fp, stack, hk, fk, sk, yq, yk, pq, pos, cur >>
+                            fp, stack, hk, fk, sk, yq, yk, pq, pos, cur, j >>
 
 B7(self) == /\ pc[self] = "B7"
             /\ IF Algo = "inplace"
@@ -430,7 +453,7 @@ B7(self) == /\ pc[self] = "B7"
                        /\ meta' = meta
             /\ pc' = [pc EXCEPT ![self] = "B8"]
             /\ UNCHANGED << dirs, blob, link, tblob, tlink, ret, err, hb, fb, 
-                            fp, stack, hk, fk, sk, yq, yk, pq, pos, cur >>
+                            fp, stack, hk, fk, sk, yq, yk, pq, pos, cur, j >>
 
 B8(self) == /\ pc[self] = "B8"
             /\ IF Algo = "atomic"
@@ -442,14 +465,14 @@ B8(self) == /\ pc[self] = "B8"
             /\ sk' = [sk EXCEPT ![self] = Head(stack[self]).sk]
             /\ stack' = [stack EXCEPT ![self] = Tail(stack[self])]
             /\ UNCHANGED << dirs, blob, link, tblob, tlink, ret, err, hb, fb, 
-                            fp, hk, fk, yq, yk, pq, pos, cur >>
+                            fp, hk, fk, yq, yk, pq, pos, cur, j >>
 
 BX(self) == /\ pc[self] = "BX"
             /\ FALSE
             /\ pc' = [pc EXCEPT ![self] = "Error"]
             /\ UNCHANGED << dirs, blob, meta, link, tblob, tmeta, tlink, ret, 
                             err, hb, fb, fp, stack, hk, fk, sk, yq, yk, pq, 
-                            pos, cur >>
+                            pos, cur, j >>
 
 StoreBlob(self) == B0(self) \/ B1(self) \/ B2(self) \/ B3(self) \/ B4(self)
                       \/ B5(self) \/ B6(self) \/ B7(self) \/ B8(self)
@@ -461,7 +484,7 @@ Y1(self) == /\ pc[self] = "Y1"
                   ELSE /\ pc' = [pc EXCEPT ![self] = "Y2"]
             /\ UNCHANGED << dirs, blob, meta, link, tblob, tmeta, tlink, ret, 
                             err, hb, fb, fp, stack, hk, fk, sk, yq, yk, pq, 
-                            pos, cur >>
+                            pos, cur, j >>
 
 Y2(self) == /\ pc[self] = "Y2"
             /\ IF "sub" \in dirs /\ Algo = "inplace"
@@ -472,7 +495,7 @@ Y2(self) == /\ pc[self] = "Y2"
                        /\ pc' = [pc EXCEPT ![self] = "Y3"]
                        /\ err' = err
             /\ UNCHANGED << blob, meta, link, tblob, tmeta, tlink, ret, hb, fb, 
-                            fp, stack, hk, fk, sk, yq, yk, pq, pos, cur >>
+                            fp, stack, hk, fk, sk, yq, yk, pq, pos, cur, j >>
 
 Y3(self) == /\ pc[self] = "Y3"
             /\ IF LinkOk(yq[self]) /\ link[yq[self]] = yk[self]
@@ -483,7 +506,7 @@ Y3(self) == /\ pc[self] = "Y3"
                   ELSE /\ pc' = [pc EXCEPT ![self] = "Y4"]
                        /\ UNCHANGED << stack, yq, yk >>
             /\ UNCHANGED << dirs, blob, meta, link, tblob, tmeta, tlink, ret, 
-                            err, hb, fb, fp, hk, fk, sk, pq, pos, cur >>
+                            err, hb, fb, fp, hk, fk, sk, pq, pos, cur, j >>
 
 Y4(self) == /\ pc[self] = "Y4"
             /\ IF Algo = "atomic"
@@ -494,7 +517,7 @@ Y4(self) == /\ pc[self] = "Y4"
                              ELSE /\ pc' = [pc EXCEPT ![self] = "Y5"]
                        /\ tlink' = tlink
             /\ UNCHANGED << dirs, blob, meta, link, tblob, tmeta, ret, err, hb, 
-                            fb, fp, stack, hk, fk, sk, yq, yk, pq, pos, cur >>
+                            fb, fp, stack, hk, fk, sk, yq, yk, pq, pos, cur, j >>
 
 Y5(self) == /\ pc[self] = "Y5"
             /\ IF link[yq[self]] = "-"
@@ -505,7 +528,7 @@ Y5(self) == /\ pc[self] = "Y5"
                        /\ pc' = [pc EXCEPT ![self] = "Y6"]
                        /\ err' = err
             /\ UNCHANGED << dirs, blob, meta, tblob, tmeta, tlink, ret, hb, fb, 
-                            fp, stack, hk, fk, sk, yq, yk, pq, pos, cur >>
+                            fp, stack, hk, fk, sk, yq, yk, pq, pos, cur, j >>
 
 Y6(self) == /\ pc[self] = "Y6"
             /\ IF link[yq[self]] # "-"
@@ -516,7 +539,7 @@ Y6(self) == /\ pc[self] = "Y6"
                        /\ pc' = [pc EXCEPT ![self] = "Y6r"]
                        /\ err' = err
             /\ UNCHANGED << dirs, blob, meta, tblob, tmeta, tlink, ret, hb, fb, 
-                            fp, stack, hk, fk, sk, yq, yk, pq, pos, cur >>
+                            fp, stack, hk, fk, sk, yq, yk, pq, pos, cur, j >>
 
 Y6r(self) == /\ pc[self] = "Y6r"
              /\ pc' = [pc EXCEPT ![self] = Head(stack[self]).pc]
@@ -524,7 +547,7 @@ Y6r(self) == /\ pc[self] = "Y6r"
              /\ yk' = [yk EXCEPT ![self] = Head(stack[self]).yk]
              /\ stack' = [stack EXCEPT ![self] = Tail(stack[self])]
              /\ UNCHANGED << dirs, blob, meta, link, tblob, tmeta, tlink, ret, 
-                             err, hb, fb, fp, hk, fk, sk, pq, pos, cur >>
+                             err, hb, fb, fp, hk, fk, sk, pq, pos, cur, j >>
 
 Y7(self) == /\ pc[self] = "Y7"
             /\ link' = [link EXCEPT ![yq[self]] = tlink[self]]
@@ -534,14 +557,14 @@ Y7(self) == /\ pc[self] = "Y7"
             /\ yk' = [yk EXCEPT ![self] = Head(stack[self]).yk]
             /\ stack' = [stack EXCEPT ![self] = Tail(stack[self])]
             /\ UNCHANGED << dirs, blob, meta, tblob, tmeta, ret, err, hb, fb, 
-                            fp, hk, fk, sk, pq, pos, cur >>
+                            fp, hk, fk, sk, pq, pos, cur, j >>
 
 YX(self) == /\ pc[self] = "YX"
             /\ FALSE
             /\ pc' = [pc EXCEPT ![self] = "Error"]
             /\ UNCHANGED << dirs, blob, meta, link, tblob, tmeta, tlink, ret, 
                             err, hb, fb, fp, stack, hk, fk, sk, yq, yk, pq, 
-                            pos, cur >>
+                            pos, cur, j >>
 
 SyncPath(self) == Y1(self) \/ Y2(self) \/ Y3(self) \/ Y4(self) \/ Y5(self)
                      \/ Y6(self) \/ Y6r(self) \/ Y7(self) \/ YX(self)
@@ -554,7 +577,7 @@ P1(self) == /\ pc[self] = "P1"
                        /\ err' = err
             /\ UNCHANGED << dirs, blob, meta, link, tblob, tmeta, tlink, ret, 
                             hb, fb, fp, stack, hk, fk, sk, yq, yk, pq, pos, 
-                            cur >>
+                            cur, j >>
 
 P2(self) == /\ pc[self] = "P2"
             /\ IF ~LinkOk(pq[self])
@@ -564,7 +587,7 @@ P2(self) == /\ pc[self] = "P2"
                        /\ err' = err
             /\ UNCHANGED << dirs, blob, meta, link, tblob, tmeta, tlink, ret, 
                             hb, fb, fp, stack, hk, fk, sk, yq, yk, pq, pos, 
-                            cur >>
+                            cur, j >>
 
 P3(self) == /\ pc[self] = "P3"
             /\ fp' = [fp EXCEPT ![self] = IF link[pq[self]] = "-" THEN "garbage" ELSE link[pq[self]]]
@@ -572,14 +595,14 @@ P3(self) == /\ pc[self] = "P3"
             /\ pq' = [pq EXCEPT ![self] = Head(stack[self]).pq]
             /\ stack' = [stack EXCEPT ![self] = Tail(stack[self])]
             /\ UNCHANGED << dirs, blob, meta, link, tblob, tmeta, tlink, ret, 
-                            err, hb, fb, hk, fk, sk, yq, yk, pos, cur >>
+                            err, hb, fb, hk, fk, sk, yq, yk, pos, cur, j >>
 
 PX(self) == /\ pc[self] = "PX"
             /\ FALSE
             /\ pc' = [pc EXCEPT ![self] = "Error"]
             /\ UNCHANGED << dirs, blob, meta, link, tblob, tmeta, tlink, ret, 
                             err, hb, fb, fp, stack, hk, fk, sk, yq, yk, pq, 
-                            pos, cur >>
+                            pos, cur, j >>
 
 FetchPath(self) == P1(self) \/ P2(self) \/ P3(self) \/ PX(self)
 
@@ -588,7 +611,7 @@ W0(self) == /\ pc[self] = "W0"
             /\ pc' = [pc EXCEPT ![self] = "L0"]
             /\ UNCHANGED << dirs, blob, meta, link, tblob, tmeta, tlink, ret, 
                             err, hb, fb, fp, stack, hk, fk, sk, yq, yk, pq, 
-                            pos, cur >>
+                            pos, cur, j >>
 
 L0(self) == /\ pc[self] = "L0"
             /\ IF pos[self] <= Len(Script[self])
@@ -600,19 +623,21 @@ L0(self) == /\ pc[self] = "L0"
                                   /\ pc' = [pc EXCEPT ![self] = "I1"]
                              ELSE /\ IF cur'[self].op = "keep"
                                         THEN /\ pc' = [pc EXCEPT ![self] = "K1"]
-                                        ELSE /\ pc' = [pc EXCEPT ![self] = "G1"]
+                                        ELSE /\ IF cur'[self].op = "evaln"
+                                                   THEN /\ pc' = [pc EXCEPT ![self] = "E0"]
+                                                   ELSE /\ pc' = [pc EXCEPT ![self] = "G1"]
                                   /\ stack' = stack
                   ELSE /\ pc' = [pc EXCEPT ![self] = "Done"]
                        /\ UNCHANGED << stack, cur >>
             /\ UNCHANGED << dirs, blob, meta, link, tblob, tmeta, tlink, ret, 
-                            err, hb, fb, fp, hk, fk, sk, yq, yk, pq, pos >>
+                            err, hb, fb, fp, hk, fk, sk, yq, yk, pq, pos, j >>
 
 N1(self) == /\ pc[self] = "N1"
             /\ pos' = [pos EXCEPT ![self] = pos[self] + 1]
             /\ pc' = [pc EXCEPT ![self] = "L0"]
             /\ UNCHANGED << dirs, blob, meta, link, tblob, tmeta, tlink, ret, 
                             err, hb, fb, fp, stack, hk, fk, sk, yq, yk, pq, 
-                            cur >>
+                            cur, j >>
 
 K1(self) == /\ pc[self] = "K1"
             /\ /\ hk' = [hk EXCEPT ![self] = cur[self].k]
@@ -622,7 +647,7 @@ K1(self) == /\ pc[self] = "K1"
                                                     \o stack[self]]
             /\ pc' = [pc EXCEPT ![self] = "H1"]
             /\ UNCHANGED << dirs, blob, meta, link, tblob, tmeta, tlink, ret, 
-                            err, hb, fb, fp, fk, sk, yq, yk, pq, pos, cur >>
+                            err, hb, fb, fp, fk, sk, yq, yk, pq, pos, cur, j >>
 
 K2(self) == /\ pc[self] = "K2"
             /\ IF hb[self]
@@ -635,7 +660,7 @@ K2(self) == /\ pc[self] = "K2"
                   ELSE /\ pc' = [pc EXCEPT ![self] = "K3"]
                        /\ UNCHANGED << stack, fk >>
             /\ UNCHANGED << dirs, blob, meta, link, tblob, tmeta, tlink, ret, 
-                            err, hb, fb, fp, hk, sk, yq, yk, pq, pos, cur >>
+                            err, hb, fb, fp, hk, sk, yq, yk, pq, pos, cur, j >>
 
 K3(self) == /\ pc[self] = "K3"
             /\ /\ sk' = [sk EXCEPT ![self] = cur[self].k]
@@ -645,14 +670,14 @@ K3(self) == /\ pc[self] = "K3"
                                                     \o stack[self]]
             /\ pc' = [pc EXCEPT ![self] = "B0"]
             /\ UNCHANGED << dirs, blob, meta, link, tblob, tmeta, tlink, ret, 
-                            err, hb, fb, fp, hk, fk, yq, yk, pq, pos, cur >>
+                            err, hb, fb, fp, hk, fk, yq, yk, pq, pos, cur, j >>
 
 K4(self) == /\ pc[self] = "K4"
             /\ fb' = [fb EXCEPT ![self] = V(cur[self].k)]
             /\ pc' = [pc EXCEPT ![self] = "K5"]
             /\ UNCHANGED << dirs, blob, meta, link, tblob, tmeta, tlink, ret, 
                             err, hb, fp, stack, hk, fk, sk, yq, yk, pq, pos, 
-                            cur >>
+                            cur, j >>
 
 K5(self) == /\ pc[self] = "K5"
             /\ /\ stack' = [stack EXCEPT ![self] = << [ procedure |->  "SyncPath",
@@ -664,14 +689,101 @@ K5(self) == /\ pc[self] = "K5"
                /\ yq' = [yq EXCEPT ![self] = cur[self].q]
             /\ pc' = [pc EXCEPT ![self] = "Y1"]
             /\ UNCHANGED << dirs, blob, meta, link, tblob, tmeta, tlink, ret, 
-                            err, hb, fb, fp, hk, fk, sk, pq, pos, cur >>
+                            err, hb, fb, fp, hk, fk, sk, pq, pos, cur, j >>
 
 K6(self) == /\ pc[self] = "K6"
             /\ ret' = [ret EXCEPT ![self] = Append(ret[self], [op |-> "keep", q |-> cur[self].q, k |-> cur[self].k, v |-> fb[self]])]
             /\ pc' = [pc EXCEPT ![self] = "N1"]
             /\ UNCHANGED << dirs, blob, meta, link, tblob, tmeta, tlink, err, 
                             hb, fb, fp, stack, hk, fk, sk, yq, yk, pq, pos, 
+                            cur, j >>
+
+E0(self) == /\ pc[self] = "E0"
+            /\ j' = [j EXCEPT ![self] = 1]
+            /\ pc' = [pc EXCEPT ![self] = "E1"]
+            /\ UNCHANGED << dirs, blob, meta, link, tblob, tmeta, tlink, ret, 
+                            err, hb, fb, fp, stack, hk, fk, sk, yq, yk, pq, 
+                            pos, cur >>
+
+E1(self) == /\ pc[self] = "E1"
+            /\ IF j[self] <= Len(cur[self].stores)
+                  THEN /\ /\ hk' = [hk EXCEPT ![self] = cur[self].stores[j[self]]]
+                          /\ stack' = [stack EXCEPT ![self] = << [ procedure |->  "HasBlob",
+                                                                   pc        |->  "E2",
+                                                                   hk        |->  hk[self] ] >>
+                                                               \o stack[self]]
+                       /\ pc' = [pc EXCEPT ![self] = "H1"]
+                  ELSE /\ pc' = [pc EXCEPT ![self] = "E5"]
+                       /\ UNCHANGED << stack, hk >>
+            /\ UNCHANGED << dirs, blob, meta, link, tblob, tmeta, tlink, ret, 
+                            err, hb, fb, fp, fk, sk, yq, yk, pq, pos, cur, j >>
+
+E2(self) == /\ pc[self] = "E2"
+            /\ IF hb[self]
+                  THEN /\ /\ fk' = [fk EXCEPT ![self] = cur[self].stores[j[self]]]
+                          /\ stack' = [stack EXCEPT ![self] = << [ procedure |->  "FetchBlob",
+                                                                   pc        |->  "E4",
+                                                                   fk        |->  fk[self] ] >>
+                                                               \o stack[self]]
+                       /\ pc' = [pc EXCEPT ![self] = "F1"]
+                  ELSE /\ pc' = [pc EXCEPT ![self] = "E3"]
+                       /\ UNCHANGED << stack, fk >>
+            /\ UNCHANGED << dirs, blob, meta, link, tblob, tmeta, tlink, ret, 
+                            err, hb, fb, fp, hk, sk, yq, yk, pq, pos, cur, j >>
+
+E3(self) == /\ pc[self] = "E3"
+            /\ /\ sk' = [sk EXCEPT ![self] = cur[self].stores[j[self]]]
+               /\ stack' = [stack EXCEPT ![self] = << [ procedure |->  "StoreBlob",
+                                                        pc        |->  "E3b",
+                                                        sk        |->  sk[self] ] >>
+                                                    \o stack[self]]
+            /\ pc' = [pc EXCEPT ![self] = "B0"]
+            /\ UNCHANGED << dirs, blob, meta, link, tblob, tmeta, tlink, ret, 
+                            err, hb, fb, fp, hk, fk, yq, yk, pq, pos, cur, j >>
+
+E3b(self) == /\ pc[self] = "E3b"
+             /\ fb' = [fb EXCEPT ![self] = V(cur[self].stores[j[self]])]
+             /\ pc' = [pc EXCEPT ![self] = "E4"]
+             /\ UNCHANGED << dirs, blob, meta, link, tblob, tmeta, tlink, ret, 
+                             err, hb, fp, stack, hk, fk, sk, yq, yk, pq, pos, 
+                             cur, j >>
+
+E4(self) == /\ pc[self] = "E4"
+            /\ ret' = [ret EXCEPT ![self] = Append(ret[self], [op |-> "keep", q |-> "", k |-> cur[self].stores[j[self]], v |-> fb[self]])]
+            /\ j' = [j EXCEPT ![self] = j[self] + 1]
+            /\ pc' = [pc EXCEPT ![self] = "E1"]
+            /\ UNCHANGED << dirs, blob, meta, link, tblob, tmeta, tlink, err, 
+                            hb, fb, fp, stack, hk, fk, sk, yq, yk, pq, pos, 
                             cur >>
+
+E5(self) == /\ pc[self] = "E5"
+            /\ j' = [j EXCEPT ![self] = 1]
+            /\ pc' = [pc EXCEPT ![self] = "E6"]
+            /\ UNCHANGED << dirs, blob, meta, link, tblob, tmeta, tlink, ret, 
+                            err, hb, fb, fp, stack, hk, fk, sk, yq, yk, pq, 
+                            pos, cur >>
+
+E6(self) == /\ pc[self] = "E6"
+            /\ IF j[self] <= Len(cur[self].syncs)
+                  THEN /\ /\ stack' = [stack EXCEPT ![self] = << [ procedure |->  "SyncPath",
+                                                                   pc        |->  "E7",
+                                                                   yq        |->  yq[self],
+                                                                   yk        |->  yk[self] ] >>
+                                                               \o stack[self]]
+                          /\ yk' = [yk EXCEPT ![self] = cur[self].syncs[j[self]][2]]
+                          /\ yq' = [yq EXCEPT ![self] = cur[self].syncs[j[self]][1]]
+                       /\ pc' = [pc EXCEPT ![self] = "Y1"]
+                  ELSE /\ pc' = [pc EXCEPT ![self] = "N1"]
+                       /\ UNCHANGED << stack, yq, yk >>
+            /\ UNCHANGED << dirs, blob, meta, link, tblob, tmeta, tlink, ret, 
+                            err, hb, fb, fp, hk, fk, sk, pq, pos, cur, j >>
+
+E7(self) == /\ pc[self] = "E7"
+            /\ j' = [j EXCEPT ![self] = j[self] + 1]
+            /\ pc' = [pc EXCEPT ![self] = "E6"]
+            /\ UNCHANGED << dirs, blob, meta, link, tblob, tmeta, tlink, ret, 
+                            err, hb, fb, fp, stack, hk, fk, sk, yq, yk, pq, 
+                            pos, cur >>
 
 G1(self) == /\ pc[self] = "G1"
             /\ /\ pq' = [pq EXCEPT ![self] = cur[self].q]
@@ -681,7 +793,7 @@ G1(self) == /\ pc[self] = "G1"
                                                     \o stack[self]]
             /\ pc' = [pc EXCEPT ![self] = "P1"]
             /\ UNCHANGED << dirs, blob, meta, link, tblob, tmeta, tlink, ret, 
-                            err, hb, fb, fp, hk, fk, sk, yq, yk, pos, cur >>
+                            err, hb, fb, fp, hk, fk, sk, yq, yk, pos, cur, j >>
 
 G2(self) == /\ pc[self] = "G2"
             /\ /\ fk' = [fk EXCEPT ![self] = fp[self]]
@@ -691,18 +803,20 @@ G2(self) == /\ pc[self] = "G2"
                                                     \o stack[self]]
             /\ pc' = [pc EXCEPT ![self] = "F1"]
             /\ UNCHANGED << dirs, blob, meta, link, tblob, tmeta, tlink, ret, 
-                            err, hb, fb, fp, hk, sk, yq, yk, pq, pos, cur >>
+                            err, hb, fb, fp, hk, sk, yq, yk, pq, pos, cur, j >>
 
 G3(self) == /\ pc[self] = "G3"
             /\ ret' = [ret EXCEPT ![self] = Append(ret[self], [op |-> "load", q |-> cur[self].q, k |-> fp[self], v |-> fb[self]])]
             /\ pc' = [pc EXCEPT ![self] = "N1"]
             /\ UNCHANGED << dirs, blob, meta, link, tblob, tmeta, tlink, err, 
                             hb, fb, fp, stack, hk, fk, sk, yq, yk, pq, pos, 
-                            cur >>
+                            cur, j >>
 
 c(self) == W0(self) \/ L0(self) \/ N1(self) \/ K1(self) \/ K2(self)
-              \/ K3(self) \/ K4(self) \/ K5(self) \/ K6(self) \/ G1(self)
-              \/ G2(self) \/ G3(self)
+              \/ K3(self) \/ K4(self) \/ K5(self) \/ K6(self) \/ E0(self)
+              \/ E1(self) \/ E2(self) \/ E3(self) \/ E3b(self) \/ E4(self)
+              \/ E5(self) \/ E6(self) \/ E7(self) \/ G1(self) \/ G2(self)
+              \/ G3(self)
 
 (* Allow infinite stuttering to prevent deadlock on termination. *)
 Terminating == /\ \A self \in ProcSet: pc[self] = "Done"
